@@ -125,8 +125,20 @@ pub fn run_case(rng: &mut Rng, maxops: u64) -> String {
     let n = rng.range(3, maxops);
     let keys = cfg.keys;
     let mut described = 0u64;
-    for _ in 0..n {
+    // one case in four starts with a delete that overtakes its own insert in the write queue
+    // (it matters under write-on-insertion with the tombstone log: the delete must be logged although the key has
+    // no indexed copy yet)
+    let mut scripted: Vec<HOp> = if (cfg.woi && cfg.tomb && rng.chance(1, 2)) || rng.chance(1, 8) {
+        let k = rng.below(keys);
+        vec![HOp::Wait, HOp::Unhold, HOp::Rm { k }, HOp::Ins { k, sz: *rng.pick(&['s', 'n']), loc: '-' }, HOp::Hold]
+    } else {
+        vec![]
+    };
+    for _ in 0..n.max(scripted.len() as u64) {
         let op = loop {
+            if let Some(op) = scripted.pop() {
+                break op;
+            }
             let op = match rng.below(100) {
                 0..=44 => HOp::Ins { k: rng.below(keys), sz: *rng.pick(&['s', 's', 'm', 'n', 'l']), loc: '-' },
                 45..=54 => HOp::WIns { k: rng.below(keys), sz: 's', force: true },
